@@ -24,6 +24,8 @@ SPEC = {
             "x every route of the real code: Gate::apply, apply_mat, apply_slice, apply_mat_slice on states of 2^k*t rows (t=1,2,4), "
             "gates::apply_gate_slice, gates::apply_gate_mat_slice, VectorState::apply_gate and apply_conditional_gate "
             "(all-true and mixed masks on a state split into several ranges) read back through verif_snapshot, "
+            "plus 4- and 5-qubit terms (Kron, C, Composite, Loop) on n<=5 (n<=6 thorough) with sampled operand orders (all orders for n<=5 thorough), "
+            "always including tuples whose endpoints look consecutive while the interior is out of order (e.g. 1 3 2 4); "
             "gates::bit_permutation for every tuple (n<=5 quick, n<=6 thorough); plus a malformed stream "
             "(row counts that are not a multiple of 2^k, wrong arity, repeated and out-of-range qubits, wrong state size; panics caught). "
             "(A) implementation vs Lean model route to 1e-12; (B) implementation vs embed(n, bits, matrix())*v to 1e-9, "
